@@ -9,7 +9,7 @@ MCChunks == {c \in Chunks(Size) : Only = {} \/ c[1] \in Only}
 MCInit == /\ chunk \in MCChunks /\ phase = "pick" /\ inst = Base /\ todo = {} /\ order = << >> /\ pos = 1
           /\ trees = << >> /\ out = [verdict |-> "none", schema |-> {}]
 Pick == /\ phase = "pick" /\ UNCHANGED chunk
-        /\ \E I \in Chunk(chunk) : PStart(I)
+        /\ \E I \in {J \in Chunk(chunk) : J.spell = "u"} : PStart(I)     \* (spelling does not enter meaning or mechanism)
 MCNext == Pick \/ (phase # "pick" /\ PNext /\ UNCHANGED chunk) \/ (Done /\ UNCHANGED <<pvars, chunk>>)
 MCSpec == MCInit /\ [][MCNext]_<<pvars, chunk>>
 MCProgress == [][phase # "pick" => Measure' < Measure]_<<pvars, chunk>>
